@@ -123,6 +123,11 @@ func (c10) Gen(seed uint64, tier string) *Scenario {
 			sc.Files = append(sc.Files, FileSpec{Name: "store/" + t.Name, Content: genTableContent(f, rows, r)}, FileSpec{Name: t.Name, LinkTo: "store/" + t.Name})
 		} else {
 			sc.Files = append(sc.Files, FileSpec{Name: t.Name, Content: genTableContent(f, rows, r)})
+			if rh := Sub(seed, fmt.Sprintf("c10-hardlink-%d", i)); rh.Bool(0.12) {
+				// the table has a second name (a hard link, e.g. a backup made with ln or cp -l): whatever
+				// COMMIT does about that, each name holds a complete old or new version at every instant
+				sc.Files = append(sc.Files, FileSpec{Name: strings.ReplaceAll(t.Name, "/", "_") + ".bak", HardTo: t.Name})
+			}
 		}
 	}
 	// an untouched bystander
